@@ -63,6 +63,7 @@ class Recorder:
         import random as _r
         self.rng_jump = _r.Random(case.get("jump_seed", 0))
         self.matrix_version = 0
+        self.stale_makeH = []
         self.queries = 0
 
     def ev(self, code, ints=(), floats=()):
@@ -177,6 +178,13 @@ def patched(rec: Recorder):
 
     def make_H(*, interaction_matrix, hamiltonian_type, num_gpus_to_use=None, dim=2):
         rec.ev(9)
+        # property-level oracle: the Hamiltonian must be (re)built from the matrix returned by the LATEST
+        # interaction_matrix(t) query (the recorder encodes the version of the matrix in its values)
+        n = interaction_matrix.shape[0]
+        if n >= 2:
+            used = int(round(float(interaction_matrix[0, 1]))) - 1
+            if used != rec.matrix_version:
+                rec.stale_makeH.append((used, rec.matrix_version, len(rec.events)))
         return FakeH(interaction_matrix.shape[0])
 
     def update_H(*, hamiltonian, omega, delta, phi, noise):
@@ -341,7 +349,7 @@ def _run_impl(case, observables=None):
                 n += 1
                 snaps.append(snapshot(impl))
             return dict(outcome="finished", snapshots=snaps, events=rec.events, impl=impl,
-                        norm_log=rec.norm_log)
+                        norm_log=rec.norm_log, stale_makeH=rec.stale_makeH)
         except tuple(ERR_CLASS) as ex:
             # the model reports the trace up to the last completed progress() on an error
             return dict(outcome=ERR_CLASS[type(ex)], snapshots=snaps, events=rec.events[:mark],
